@@ -274,7 +274,7 @@ Proof. exact dither565_call_state. Qed.
 Print Assumptions C10_dither565_call_state.
 
 (* ... so dithered RGB565 depends on scanlines-per-call (first row of a call agrees, the second does not; C09 territory) ... *)
-Theorem C10_dither565_depends_on_lines_per_call :
+Theorem C10_rgb565_dither_depends_on_rows_per_call :
   let img := [[(100, 110, 120); (101, 111, 121); (102, 112, 122); (103, 113, 123)];
               [(100, 110, 120); (101, 111, 121); (102, 112, 122); (103, 113, 123)]] in
   let buf := repeat 0 16 in
@@ -282,16 +282,28 @@ Theorem C10_dither565_depends_on_lines_per_call :
   let two_calls := convert565 false 1 true 0 1 4 (tl img) (convert565 false 1 true 0 0 4 [hd [] img] buf [0]) [8] in
   firstn 8 one_call = firstn 8 two_calls /\ one_call <> two_calls.
 Proof. exact dither565_depends_on_lines_per_call. Qed.
-Print Assumptions C10_dither565_depends_on_lines_per_call.
+Print Assumptions C10_rgb565_dither_depends_on_rows_per_call.
 
 (* ... and on the alignment of the row pointer, while the undithered conversion does not *)
-Theorem C10_dither565_depends_on_alignment :
+Theorem C10_rgb565_dither_depends_on_alignment :
   let row := [[(100, 110, 120); (101, 111, 121); (102, 112, 122); (103, 113, 123)]] in
   let buf := repeat 0 8 in
   convert565 false 1 true 0 0 4 row buf [0] <> convert565 false 1 true 2 0 4 row buf [0] /\
   convert565 false 1 false 0 0 4 row buf [0] = convert565 false 1 false 2 0 4 row buf [0].
 Proof. exact dither565_depends_on_alignment. Qed.
-Print Assumptions C10_dither565_depends_on_alignment.
+Print Assumptions C10_rgb565_dither_depends_on_alignment.
+
+(* the positive statement: one scanline per call into a row at 0 mod 4 gives the documented ordered dither -- pixel k of
+   scanline s is dithered with dither_matrix[s & 3] rotated k times (vals_from), the row is complete, nothing else written *)
+Theorem C10_rgb565_dither_one_aligned_row : forall src base scan row buf op,
+  Z.land (base + op) pack_align_mask = 0 -> okD src (dither_row scan) row -> 0 <= op ->
+  op + 2 * Z.of_nat (length row) <= Z.of_nat (length buf) ->
+  let out := convert565 false src true base scan (Z.of_nat (length row)) [row] buf [op] in
+  length out = length buf /\
+  (forall j, 0 <= j -> (j < op \/ op + 2 * Z.of_nat (length row) <= j) -> rd out j = rd buf j) /\
+  cols565 false out op (length row) = vals_from src (dither_row scan) row.
+Proof. exact dither565_one_aligned_row. Qed.
+Print Assumptions C10_rgb565_dither_one_aligned_row.
 
 (* non-vacuity: the hypotheses of (2) and (3) hold for concrete non-trivial values *)
 Example C10_compress_example :
